@@ -21,6 +21,10 @@ WEIRD = ["'ééé'", "'😀😀'", "''", "'ab", '"open', "`", "$", "@", "@bogus"
 FAULTS = [
     "@defn sr1, sr1\n@db sr1", "@defn ma, mb\n@defn mb, ma\n@db ma", "@defl la, la + 1\n@dw la", "@defn c1, c2 + 1\n@defn c2, c3 + 1\n@defn c3, c1 + 1\n@dw c2",
     '@db @string { "<" b ld a x nop hl LD A, B ">" }', "@label { lb b ld }:\n@dw lbbld", '@parse { @db "<"b@sizeof x } ', "@db @string { af' ix IXH sp (c) }",
+    # an empty element list, then every construct that opens another token source (each needs the directory stack intact)
+    '@each tt, { }\n@db tt\n@endeach\n@include "inc.inc"', "@macro mm9, 0\n@db 1\n@endmacro\n@each tt, { }\n@endeach\nmm9",
+    "@each tt, { }\n@endeach\n@each uu, { 1 2 }\n@db uu\n@endeach", '@each tt, { @count 0 }\n@endeach\n@incbin "blob.bin"',
+    '@each tt, { }\n@endeach\n@parse "@db 4"', '@each tt, { }\n@endeach\n@db @string { @getmeta nosuch, "k" }',
     "@defn k1, k1\n@defn k2, k1 + 1\n@db k2", "@defn r1, r2\n@defn r2, r1\n@defn r3, r2 + 1\n@defn r4, r3 * 2\n@dw r4", "@defl la1, la1\n@defl lb1, la1\n@defl lc1, lb1\n@db lc1, lb1",
     "@dw t3\n@defn t3, t2 + t1\n@defn t2, t1\n@defn t1, t2", "@assert u2\n@defn u2, u1 - 1\n@defn u1, u1 + 1",
     "@db 1/0", "@db 1 % 0", "@dw 5 / (3 - 3)", "@dw 5 % (3 - 3)", "@db -($80000000)", "@dw (-($80000000)) & 1", "@dw ($80000000 / -1) & 1", "@dw ($80000000 % -1) & 1",
